@@ -218,7 +218,8 @@ CompressClauses(ln, st) ==
       pc == PromisedCentre(ln, L)
       nothing == NothingToTruncate(ln.method, ln.cap, ln.cutoff0, ln.ranks, a.bonds) IN
   << \* a method that documents that it needs a cap may reject max_bond=None; nothing else may raise
-     <<"Returns", ok \/ (ln.cap = 0 /\ ln.method \in NeedsCap)>>,
+     <<"Returns", ok \/ (ln.cap = 0 /\ ln.method \in NeedsCap) \/ NumericalRefusal(ln.method, ln.exc)>>,
+     <<"NOTE:NumericalRefusal", ~NumericalRefusal(ln.method, ln.exc)>>,
      \* (ln.capped: the positions of the bonds the call compresses - all of them except for compress_site)
      <<"BondCap", (ok /\ ln.cap > 0) => /\ (Len(ln.capped) = Len(ln.bonds)) => ln.maxbond <= ln.cap
                                         /\ \A k \in DOMAIN ln.capped : ln.bonds[ln.capped[k]] <= ln.cap>>,
@@ -233,7 +234,7 @@ CompressClauses(ln, st) ==
            /\ ln.bonds = ln.model.bonds
            /\ (ln.model.centre > 0 => CanonicalAround(ln.model.centre, ln.liso, ln.riso))
            /\ ((~ln.model.lossy /\ ln.cutoff0) => ln.same = 0)>>,
-     <<"NOTE:SweepModelRejects", (~ok /\ Has(ln, "model")) => ln.model.rejected>> >>
+     <<"NOTE:SweepModelRejects", (~ok /\ Has(ln, "model") /\ ~NumericalRefusal(ln.method, ln.exc)) => ln.model.rejected>> >>
 
 CompressStore(ln, st) ==
   IF ~Known(st, <<ln.src>>) \/ ln.out = "" \/ ln.exc # "" THEN st
